@@ -186,6 +186,89 @@ pub fn build_op(ctx: &mut Context, op: Op, p: [u32; 2], a: &[ExprRef]) -> ExprRe
     }
 }
 
+
+/// Build `op` through the `Builder` closure API (`ctx.build(|b| b.op(..))`) instead of the Context methods.
+pub fn build_op_via_builder(ctx: &mut Context, op: Op, p: [u32; 2], a: &[ExprRef]) -> ExprRef {
+    ctx.build(|b| match op {
+        Op::BVSymbol | Op::BVLiteral | Op::ArraySymbol => unreachable!(),
+        Op::ZeroExt => b.zero_extend(a[0], p[0]),
+        Op::SignExt => b.sign_extend(a[0], p[0]),
+        Op::Slice => b.slice(a[0], p[0], p[1]),
+        Op::Not => b.not(a[0]),
+        Op::Neg => b.negate(a[0]),
+        Op::Equal | Op::ArrayEqual => b.equal(a[0], a[1]),
+        Op::Implies => b.implies(a[0], a[1]),
+        Op::Ugt => b.greater(a[0], a[1]),
+        Op::Sgt => b.greater_signed(a[0], a[1]),
+        Op::Uge => b.greater_or_equal(a[0], a[1]),
+        Op::Sge => b.greater_or_equal_signed(a[0], a[1]),
+        Op::Concat => b.concat(a[0], a[1]),
+        Op::And => b.and(a[0], a[1]),
+        Op::Or => b.or(a[0], a[1]),
+        Op::Xor => b.xor(a[0], a[1]),
+        Op::Shl => b.shift_left(a[0], a[1]),
+        Op::Ashr => b.arithmetic_shift_right(a[0], a[1]),
+        Op::Lshr => b.shift_right(a[0], a[1]),
+        Op::Add => b.add(a[0], a[1]),
+        Op::Mul => b.mul(a[0], a[1]),
+        Op::Sdiv => b.signed_div(a[0], a[1]),
+        Op::Udiv => b.div(a[0], a[1]),
+        Op::Smod => b.signed_mod(a[0], a[1]),
+        Op::Srem => b.signed_remainder(a[0], a[1]),
+        Op::Urem => b.remainder(a[0], a[1]),
+        Op::Sub => b.sub(a[0], a[1]),
+        Op::ArrayRead => b.array_read(a[0], a[1]),
+        Op::Ite | Op::ArrayIte => b.ite(a[0], a[1], a[2]),
+        Op::ArrayConst => b.array_const(a[0], p[0]),
+        Op::ArrayStore => b.array_store(a[0], a[1], a[2]),
+    })
+}
+
+impl Sh {
+    /// like `build`, operators through the `Builder` closure API
+    pub fn build_via_builder(&self, ctx: &mut Context) -> ExprRef {
+        match self {
+            Sh::Sym(..) | Sh::Lit(..) => self.build(ctx),
+            Sh::Op(op, p, k) => {
+                let a: Vec<ExprRef> = k.iter().map(|c| c.build_via_builder(ctx)).collect();
+                build_op_via_builder(ctx, *op, *p, &a)
+            }
+        }
+    }
+
+    /// SMT-LIB text of the shape's *intended* meaning (all-BitVec sorts of RefSmt), produced from the shape
+    /// alone - no patronus node is involved. `sym` gives the SMT name of a symbol.
+    pub fn smt_text(&self, sym: &dyn Fn(u8, Ty) -> String) -> (String, Ty) {
+        match self {
+            Sh::Sym(i, t) => (sym(*i, *t), *t),
+            Sh::Lit(w, v) => {
+                let s = v.to_str_radix(2);
+                (format!("#b{}{}", "0".repeat(*w as usize - s.len()), s), Ty::BV(*w))
+            }
+            Sh::Op(op, p, k) => {
+                let kt: Vec<(String, Ty)> = k.iter().map(|c| c.smt_text(sym)).collect();
+                let n = crate::refsmt::Node { op: *op, params: *p, kids: vec![], stored_width: None };
+                let ty = self.ty();
+                (crate::refsmt::node_smt(&n, &kt, ty, None), ty)
+            }
+        }
+    }
+}
+
+impl Sh {
+    /// value of the shape's intended meaning under `env` (symbol -> value), by the harness' own evaluator
+    pub fn eval_ref(&self, env: &dyn Fn(u8, Ty) -> crate::bigeval::Val) -> crate::bigeval::Val {
+        match self {
+            Sh::Sym(i, t) => env(*i, *t),
+            Sh::Lit(w, v) => crate::bigeval::Val::BV(v.clone(), *w),
+            Sh::Op(op, p, k) => {
+                let kv: Vec<crate::bigeval::Val> = k.iter().map(|c| c.eval_ref(env)).collect();
+                crate::bigeval::eval_op(*op, *p, &kv)
+            }
+        }
+    }
+}
+
 // ---------------------------------------------------------------------------------------------
 // literal classes
 
